@@ -67,7 +67,6 @@ type openFlush struct {
 }
 
 func ownerHistoryCase(t *rapid.T) {
-	dropPools()
 	kvsim.Register()
 	var trace []string
 	ft := traceFailer{t: t, trace: &trace}
